@@ -516,9 +516,12 @@ impl Expander<'_> {
 
 #[derive(Clone, Debug, PartialEq)]
 pub struct ExactRanges {
-    /// None = the source model is infeasible.
+    /// None = the source model is infeasible (or the reference is unavailable).
     pub ranges: Option<Vec<(Option<Q>, Option<Q>)>>,
     pub regions: u64,
+    /// The exact reference overflowed its i128 rationals on this model (extreme
+    /// coefficients): clause (a) is not judged, clause (b) still is.
+    pub unavailable: bool,
 }
 
 fn widen(r: &mut (Option<Q>, Option<Q>, bool), lo: Option<Q>, hi: Option<Q>) {
@@ -559,6 +562,7 @@ pub fn exact_ranges(m: &SrcModel) -> ExactRanges {
         return ExactRanges {
             ranges: None,
             regions,
+            unavailable: false,
         };
     }
     let mut point: Vec<i64> = ranges_int.iter().map(|r| r.0).collect();
@@ -665,6 +669,7 @@ pub fn exact_ranges(m: &SrcModel) -> ExactRanges {
             None
         },
         regions,
+        unavailable: false,
     }
 }
 
@@ -677,7 +682,21 @@ fn exact_ranges_cached(m: &SrcModel) -> ExactRanges {
     if let Some(v) = RANGE_CACHE.with(|c| c.borrow().get(&key).cloned()) {
         return v;
     }
-    let v = exact_ranges(m);
+    let v = match catch_unwind(AssertUnwindSafe(|| exact_ranges(m))) {
+        Ok(v) => v,
+        Err(p) => {
+            let msg = panic_message(p.as_ref());
+            if msg.contains("Q overflow") || msg.contains("Q::from_f64") {
+                ExactRanges {
+                    ranges: None,
+                    regions: 0,
+                    unavailable: true,
+                }
+            } else {
+                std::panic::resume_unwind(p)
+            }
+        }
+    };
     RANGE_CACHE.with(|c| {
         let mut c = c.borrow_mut();
         if c.len() > 64 {
@@ -706,6 +725,8 @@ pub struct BoundsProbes {
     pub linearize_err: bool,
     pub expr_points_checked: u64,
     pub exprs_checked: u64,
+    pub oracle_unavailable: bool,
+    pub published_box_checked: bool,
 }
 
 pub struct BoundsRun {
@@ -835,7 +856,8 @@ fn box_points(m: &SrcModel, ranges: &[(f64, f64)], seed: u64) -> Vec<Vec<f64>> {
                     lo + rng.range(0, span.max(0)) as f64
                 } else {
                     let span = (hi - lo).min(64.0);
-                    lo + span * (rng.below(1025) as f64 / 1024.0)
+                    // clamp: lo + span can round a hair past hi
+                    (lo + span * (rng.below(1025) as f64 / 1024.0)).clamp(lo, hi)
                 }
             })
             .collect();
@@ -858,7 +880,8 @@ pub fn run_bounds_case(case: &BoundsCase) -> BoundsRun {
         })
     };
     let exact = exact_ranges_cached(m);
-    probes.source_infeasible = exact.ranges.is_none();
+    probes.source_infeasible = exact.ranges.is_none() && !exact.unavailable;
+    probes.oracle_unavailable = exact.unavailable;
     let domain = m.domain();
     let constraints = m.constraints();
 
@@ -904,6 +927,9 @@ pub fn run_bounds_case(case: &BoundsCase) -> BoundsRun {
             }
             if plo == f64::NEG_INFINITY || phi == f64::INFINITY {
                 probes.infinite_range_published += 1;
+            }
+            if exact.unavailable {
+                continue;
             }
             let Some(er) = &exact.ranges else {
                 // infeasible source: vacuous, but the range must still be a range
@@ -968,7 +994,32 @@ pub fn run_bounds_case(case: &BoundsCase) -> BoundsRun {
         }
     }
     let seed = fnv(serde_json::to_string(case).unwrap().as_bytes());
-    let pts = box_points(m, &ranges, seed);
+    let mut pts = box_points(m, &ranges, seed);
+    let n_internal = pts.len();
+    // (b') the same enclosures against the *published* variable ranges. For a feasible
+    // source the published box is the analyzer's box after rounding (a subset), so this
+    // adds nothing on a correct tree; it exposes a tree that publishes one set of ranges
+    // and keeps deriving expression ranges from another.
+    // (Boolean domains are never narrowed when published, by design of apply_to_domain:
+    // for them the derived range stands in.)
+    let published_ranges: Vec<(f64, f64)> = m
+        .vars
+        .iter()
+        .enumerate()
+        .map(|(i, var)| {
+            if matches!(var.dom, Dom::Bool) {
+                return ranges[i];
+            }
+            published
+                .get(&var.name)
+                .map(|d| type_bounds(d.get_type()))
+                .unwrap_or((f64::NEG_INFINITY, f64::INFINITY))
+        })
+        .collect();
+    if exact.ranges.is_some() {
+        probes.published_box_checked = true;
+        pts.extend(box_points(m, &published_ranges, seed ^ 0x5bd1_e995));
+    }
     if !pts.is_empty() {
         let mut subs: Vec<&SExp> = Vec::new();
         for c in &m.cons {
@@ -992,19 +1043,23 @@ pub fn run_bounds_case(case: &BoundsCase) -> BoundsRun {
                 v("nan-range", format!("range of `{e}` is [{bl}, {bu}]"));
                 continue;
             }
-            for p in &pts {
+            for (pi, p) in pts.iter().enumerate() {
                 let val = e.eval(p);
                 probes.expr_points_checked += 1;
                 if !val.is_finite() {
                     continue;
                 }
-                let tol = 1e-9 * val.abs().max(1.0);
+                // published integer bounds are rounded with a 1e-9 slack: allow for it
+                let tol = if pi < n_internal { 1e-9 } else { 1e-7 } * val.abs().max(1.0);
                 if val < bl - tol || val > bu + tol {
                     v(
                         "expression-range",
                         format!(
-                            "range of `{e}` derived as [{bl}, {bu}] with variable ranges {:?} (budget {:?}), but at {:?} it evaluates to {val}",
-                            ranges, case.k, p
+                            "range of `{e}` derived as [{bl}, {bu}] with {} variable ranges {:?} (budget {:?}), but at {:?} it evaluates to {val}",
+                            if pi < n_internal { "derived" } else { "published" },
+                            if pi < n_internal { &ranges } else { &published_ranges },
+                            case.k,
+                            p
                         ),
                     );
                     continue 'exprs;
@@ -1234,7 +1289,7 @@ pub fn gen_src_model(rng: &mut Rng) -> (String, SrcModel) {
 }
 
 fn gen_src_model_once(rng: &mut Rng) -> (String, SrcModel) {
-    let shape = rng.weighted(&[28, 14, 24, 8, 9, 9, 8]);
+    let shape = rng.weighted(&[27, 13, 23, 8, 9, 9, 8, 3]);
     let inexact = rng.chance(1, 4);
     let n = rng.usize(2, 4);
     let names: Vec<String> = (0..n).map(|i| format!("v{i}")).collect();
@@ -1365,6 +1420,55 @@ fn gen_src_model_once(rng: &mut Rng) -> (String, SrcModel) {
                 push(&mut cons, SExp::Var(2), Cmp::Le, SExp::Var(0));
             }
             "slow-convergence"
+        }
+        7 => {
+            // extreme coefficient magnitudes (1e-12 .. 1e10) on otherwise ordinary rows
+            let c = *rng.pick(&[
+                Dec { n: 1, d: 10_000_000_000 },
+                Dec { n: 5, d: 10_000_000_000 },
+                Dec { n: 1, d: 1_000_000_000_000 },
+                Dec { n: 2_000_000_000, d: 1 },
+                Dec { n: 10_000_000_000, d: 1 },
+            ]);
+            vars[0].dom = rng
+                .pick(&[
+                    Dom::Real { lo: Some(0.0), hi: Some(1e12) },
+                    Dom::NonNeg { lo: 0.0, hi: None },
+                    Dom::Real { lo: Some(-1e6), hi: Some(1e6) },
+                ])
+                .clone();
+            vars[1].dom = rng
+                .pick(&[
+                    Dom::Real { lo: Some(-1000.0), hi: Some(1000.0) },
+                    Dom::Real { lo: None, hi: None },
+                    Dom::NonNeg { lo: 0.0, hi: Some(500.0) },
+                ])
+                .clone();
+            let scaled = match rng.below(3) {
+                0 => SExp::MulL(c, Box::new(SExp::Var(1))),
+                1 => SExp::MulR(Box::new(SExp::Var(1)), c),
+                _ => SExp::Div(Box::new(SExp::Var(1)), Dec { n: c.d, d: c.n.max(1) }),
+            };
+            match rng.below(3) {
+                0 => push(&mut cons, scaled, cmp3(rng), SExp::Var(0)),
+                1 => push(
+                    &mut cons,
+                    SExp::Add(Box::new(scaled), Box::new(SExp::Var(0))),
+                    cmp3(rng),
+                    rhs_const(rng, false),
+                ),
+                _ => push(
+                    &mut cons,
+                    SExp::Var(0),
+                    Cmp::Ge,
+                    SExp::Max(vec![scaled, SExp::Num(Dec::int(1))]),
+                ),
+            }
+            if rng.chance(1, 2) {
+                let l2 = affine(rng, n, false, 2);
+                push(&mut cons, l2, cmp3(rng), rhs_const(rng, false));
+            }
+            "extreme-coefficient"
         }
         6 => {
             // an integer variable whose propagated bound is EXACTLY an integer t (often 0)
